@@ -73,7 +73,9 @@ fn main() {
                 Some("tree") => props_tree::replay_file(r),
                 Some("prm") => props_prm::replay_file(r),
                 Some("repro") => props_repro::replay_file(r),
-                _ => usage(),
+                // no single-case replay for this kind of finding: the wrapper re-runs the (deterministic)
+                // quick check and looks for the same finding key
+                _ => 3,
             }
         }
         _ => usage(),
